@@ -335,7 +335,8 @@ func c20structural(c *LRUCache, cfg c20cfg) string {
 }
 
 var c20keys = []string{"a", "b", "ab", "abc", "c"}
-var c20tags = [][]string{nil, {"t1"}, {"t2"}, {"t1", "t2"}}
+// (a tag may be named twice: tag lists are often concatenations of several sources)
+var c20tags = [][]string{nil, {"t1"}, {"t2"}, {"t1", "t2"}, {"t1", "t1"}, {"t2", "t1", "t2"}}
 
 const c20alpha = "ABCDEFGHIJKLMNOPQRSTUVWXYZabcdefghijklmnopqrstuvwxyz0123456789"
 
@@ -353,6 +354,7 @@ type c20gen struct {
 	n        int
 	edgeVals bool
 	ttls     []time.Duration
+	last     map[string]string // value of the latest Set generated per key
 }
 
 func (g *c20gen) op() c20op {
@@ -388,6 +390,16 @@ func (g *c20gen) op() c20op {
 			}
 		}
 		op.val = c20value(g.n, s.Choose(sim.SWork, maxLen+1))
+		if g.last != nil && s.Choose(sim.SWork, 6) == 0 {
+			// store again exactly what an earlier Set stored (same key, same value): a refresh
+			if v, ok := g.last[op.key]; ok {
+				op.val = v
+			}
+		}
+		if g.last == nil {
+			g.last = map[string]string{}
+		}
+		g.last[op.key] = op.val
 		op.bytes = s.Choose(sim.SWork, 5) == 0
 		op.ttl = g.ttls[s.Choose(sim.SWork, len(g.ttls))]
 		if op.kind == "settags" {
